@@ -15,6 +15,13 @@ PROPS = {
         ],
         "assumptions": ["refinement theorem proved for the Secret/ConfigMap driver model; the memory driver model is tied by correspondence (all three real drivers are compared step by step with their models and with the spec map) and by the key-parse guard/counterexample theorems"],
     },
+    "C15": {
+        "corr": [("chartio", {"quick": 700, "thorough": 15000})],
+        "trusted_base": [
+            "modelled, not verified: archive/tar + gzip framing, YAML marshalling of Chart.yaml / Chart.lock and parsing of values.yaml (carried as opaque documents), filepath.Match and the .helmignore matcher, .tgz sub-charts and Helm-2 requirements files (not generated)",
+        ],
+        "assumptions": ["the complete round trip load(save c) = c is established by correspondence on generated charts (model writer/loader agree with chartutil.Save / loader.Load on every case, and the loaded chart is compared with the original field by field); the theorems cover, for all names and contents, the name/bytes survival lemmas, the classification and the exact exclusions"],
+    },
     "C16": {
         "corr": [("paths", {"quick": 1200, "thorough": 25000})],
         "trusted_base": [
